@@ -389,6 +389,16 @@ class Progress:
                     return True
         return False
 
+    def linesep_premises(self):
+        """premises of TP1/TP2, checked on the regex literals themselves: the line-separator class matches white space only
+        (so it cannot match inside `//`), and parse_nl's regex is exactly `^<that class>*` (so nothing the separator regex
+        matches can stand where parse_nl stopped)"""
+        sep = self.regex_of_static('lrlex::parser::RE_LINE_SEP')
+        lead = self.regex_of_static('lrlex::parser::RE_LEADING_LINE_SEPS')
+        ws_only = bool(sep) and sep.startswith('[\\p{Pattern_White_Space}&&') and sep.endswith(']')
+        agree = bool(sep) and bool(lead) and lead == '^' + sep + '*'
+        return ws_only, agree
+
     def trusted_linesep(self, m):
         """TP1/TP2: m is the Match of the lrlex line-separator regex searched from cursor X"""
         for x in subterms(m):
@@ -403,9 +413,12 @@ class Progress:
                 if not (rng[0] == 'variant' and rng[3] == 'RangeFrom'):
                     return None
                 X = rng[4][0]
+                ws_only, agree = self.linesep_premises()
                 for s_, y in self.LA:
-                    if s_ == '//' and y == X:
+                    if s_ == '//' and y == X and ws_only:
                         return 'TP1'
+                if not agree:
+                    return None
                 for a, b in self.NE:
                     for p, q in ((a, b), (b, a)):
                         if p == X and self.is_ok_payload_of(q, 'parse_ws', X) and self.is_ok_payload_of(X, 'parse_nl', None):
